@@ -239,24 +239,10 @@ def outOf (st : St) (tx : String) (vout : Nat) : Option Out :=
   | some t => t.outs[vout]?
   | none => none
 
-/-- TxStore.ExistsUtxo: 0 = found unspent, 1 = found spent, 2 = not found / error -/
+/-- TxStore.ExistsUtxo: 0 = found unspent, 1 = found spent, 2 = not found / error (MW.Model.ApiLedger.existsUtxo, the
+    function the ghost-state contract theorem MW.Props.C19.contract_ledger_ExistsUtxo_partial is about) -/
 def existsUtxo (st : St) (tx : String) (vout : Nat) : Nat :=
-  let cur := st.cur.getD ""
-  match AMap.get st.led.store.unspent (cur, tx, vout) with
-  | some blk =>
-    match AMap.get st.led.store.credits ⟨tx, blk, vout⟩ with
-    | some c => if c.spent then 2 else 0
-    | none => 2
-  | none =>
-    let cs := st.led.store.credits.filter (fun e => e.1.tx = tx)
-    match cs.find? (fun e => e.1.idx = vout) with
-    | some e => if e.2.spent then 1 else 2
-    | none =>
-      if cs.isEmpty then
-        match AMap.get st.led.store.pendCred (tx, vout) with
-        | some c => if c.spent then 2 else 0
-        | none => 2
-      else 2
+  Model.ApiLedger.existsUtxo st.led.store (st.cur.getD "") tx vout
 
 def ownedByCur (st : St) (o : Out) : Bool :=
   o.cls != .raw && (match AMap.get st.led.own o.addr with | some (w, _) => some w = st.cur | none => false)
@@ -524,10 +510,7 @@ def oracle (st : St) (r : Req) : Oracle := fun f σ =>
   | "w.txStore.ExistUnminedTx" =>
     Model.ApiLedger.existUnminedAnswer Model.Api.E.notFound (pendingTx st curIn.1)
   | "w.txStore.ExistsUtxo" =>
-    match existsUtxo st curIn.1 curIn.2 with
-    | 0 => [1, 0]
-    | 1 => [1, 0]
-    | _ => [0, Model.Api.E.notFound]
+    Model.ApiLedger.existsUtxoAnswer Model.Api.E.notFound (existsUtxo st curIn.1 curIn.2)
   | "flags.Spent" => [b2n (existsUtxo st curIn.1 curIn.2 = 1)]
   | "cache[txIn.PreviousOutPoint.Hash]" =>
     -- a previous transaction seen at an earlier input of the same request
@@ -646,7 +629,14 @@ def applyCall (st : St) (r : Req) (cls : String) : St :=
     | none => st
   | "RemoveWallet" =>
     match walletOfTok r.wid with
-    | some w => if cls = "ok" then { st with removing := st.removing ++ [w] } else st
+    | some w =>
+      if cls = "ok" then
+        -- MarkDeleteWallet: the status record carries the removal flag; the follower no longer counts the wallet as ready
+        let status := match AMap.get st.led.store.status w with
+          | some ws => AMap.put st.led.store.status w { ws with removed := true }
+          | none => st.led.store.status
+        { st with removing := st.removing ++ [w], led := { st.led with store := { st.led.store with status := status } } }
+      else st
     | none => st
   | "ImportWallet" =>
     if cls = "ok" && (r.arg 0).startsWith "ks:" then
@@ -711,6 +701,8 @@ def baseStep (st : St) (args : List String) : St × String :=
     let (l, o) := Led.step st.led args
     ({ st with led := l, apiWallets := if o = "ok" then st.apiWallets ++ [w] else st.apiWallets }, o ++ "\t" ++ o)
   | ["addr", w, _, _] =>
+    -- WEnv.NewAddr selects the wallet first: refused while it is being removed / imported
+    if st.cur != some w && st.led.wallets.contains w && !readyWallet st w then (st, "err\terr") else
     let st1 := useEffect st w
     let (l, o) := Led.step st1.led args
     ({ st1 with led := l }, o ++ "\t" ++ o)
